@@ -46,7 +46,25 @@ def _stdout_guard():
 _JS_RESOLVER = jsonschema.validators.RefResolver      # as the library left it at import
 
 
+_SNAPS = None
+
+
+def _module_snaps():
+    """Import-time snapshots of every module-level name of the scoring modules (whatever a first call creates lazily - a
+    table, a shared helper object - goes back to its just-imported value, also names added by a later change)."""
+    global _SNAPS
+    if _SNAPS is None:
+        from vlib.statesnap import Snap
+        import athlib.uka.agegroups as _ag
+        import athlib.wma.agegrader as _wg
+        _SNAPS = [Snap(mod(n)) for n in ('athlon_score', 'hungarian_score', 'sportshall_score', 'tyrving_score', 'qkids_score',
+                                         'bulgarian_score', 'implements')] + [Snap(_ag), Snap(_wg)]
+    return _SNAPS
+
+
 def reset_cold():
+    for sn in _module_snaps():
+        sn.restore()
     dsched.cooperative_locks('athlib')
     jsonschema.validators.RefResolver = _JS_RESOLVER   # process-wide setting of a third-party module the library adjusts
     mod('athlon_score')._scoring_objects = None
@@ -148,6 +166,9 @@ def thunks_table():
         'va-athlete-bad': lambda: u.valid_against_schema('sample-jsons/athlete_invalid.json', 'json/athlete.json'),
         'va-perf': lambda: u.valid_against_schema('sample-jsons/performance.json', 'json/performance.json'),
     }
+
+
+_module_snaps()          # at import: nothing has been called yet
 
 
 SCENARIOS = [
